@@ -52,6 +52,14 @@ func idFamily() *family {
 			s.Unknown = true
 			f.items = append(f.items, s)
 		}
+		// holder structs nested inside holder structs (the usual layout of generated code that keeps unknown fields)
+		lh := universe.LeafHolder()
+		for _, t := range []*ref.Type{universe.StPtr(lh), universe.StVal(lh), universe.ListOf(universe.StPtr(lh)), universe.ListOf(universe.StVal(lh)),
+			universe.MapOf(universe.Sc(ref.KString), universe.StVal(lh)), universe.MapOf(universe.Sc(ref.KI32), universe.StPtr(lh))} {
+			s := universe.One(t, universe.FieldShell{Req: ref.ReqDefault}, 3)
+			s.Unknown = true
+			f.items = append(f.items, s)
+		}
 		return f
 	})
 }
@@ -132,9 +140,49 @@ func depth4() *family {
 	})
 }
 
+// wide: structs with many fields (40 fields over all forms, sparse ids; 300 scalar fields with ids 1..300).
+func wide() *family {
+	return cached("wide", func() *family {
+		f := &family{name: "wide"}
+		al := universe.Reduced14()
+		reqs := []ref.Req{ref.ReqDefault, ref.ReqOptional, ref.ReqRequired}
+		for variant := 0; variant < 3; variant++ {
+			s := &ref.Struct{Unknown: variant == 2}
+			for i := 0; i < 40; i++ {
+				t := *al[(i+variant)%len(al)]
+				req := reqs[(i+variant)%3]
+				if req != ref.ReqOptional && t.Ptr && t.Kind != ref.KStruct {
+					req = ref.ReqOptional
+				}
+				s.Fields = append(s.Fields, &ref.Field{ID: uint16(1 + i*7 + variant*50), Req: req, Type: &t})
+			}
+			f.items = append(f.items, s)
+		}
+		for variant := 0; variant < 2; variant++ {
+			s := &ref.Struct{}
+			for i := 0; i < 70; i++ {
+				t := *al[(i*5+variant)%len(al)]
+				req := reqs[(i+variant)%3]
+				if i >= 62 {
+					req = ref.ReqOptional // nil-able optional fields on both sides of the 64th field
+				}
+				s.Fields = append(s.Fields, &ref.Field{ID: uint16(1 + i*3), Req: req, Type: &t})
+			}
+			f.items = append(f.items, s)
+		}
+		big := &ref.Struct{}
+		for i := 0; i < 300; i++ {
+			k := universe.S9[i%len(universe.S9)]
+			big.Fields = append(big.Fields, &ref.Field{ID: uint16(1 + i), Req: reqs[i%2], Type: universe.Sc(k)})
+		}
+		f.items = append(f.items, big)
+		return f
+	})
+}
+
 // codecFamilies is the type space shared by C01, C02, C04, C16 and C18.
 func codecFamilies(tier universe.Tier) []*family {
-	fs := []*family{singles(3), idFamily(), pairs(tier), depth4()}
+	fs := []*family{singles(3), idFamily(), pairs(tier), depth4(), wide()}
 	if tier == universe.Thorough {
 		fs = append(fs, triples())
 	}
